@@ -70,6 +70,7 @@ def rule_ids(c, prog):
 
 
 def run(c, prog):
+    common.rule_base64_whole(c, prog, "C14.b64")
     from . import C01 as _C01
     _C01.rule_codes(core.Alias(c, "C14"), prog)     # Font's number tables, relied upon by this property's Font arm
     rule_ids(c, prog)
@@ -78,6 +79,10 @@ def run(c, prog):
     C14_arm.run(c, prog)
     from . import C01_rot
     C01_rot.run(core.Alias(c, "C14"), prog)     # the CFrame attribute shares the 24 rotation ids
+    from . import C13 as _C13
+    a13 = core.Alias(c, "C14")
+    a13.rule("C13.read", "Attributes::from_reader: zero bytes is the empty map, anything else is read completely however the reader delivers it (read_exact_or_none)")
+    _C13.rule_read_or_none(a13, prog, "C13.read")
     from . import C08
     C08.rule_scratch(core.Alias(c, "C14"), prog)   # the Attributes blob of one instance must not start with another's
     c.not_decided += ["round trip for every payload (a run)", "String::from_utf8 (std)"]
